@@ -199,6 +199,12 @@ func refTerms() []gen.Term {
 		{Ref: true, LicRef: "a"}, {Ref: true, LicRef: "A"}, {Ref: true, LicRef: "b"},
 		{Ref: true, LicRef: "a", DocRef: "d"}, {Ref: true, LicRef: "a", DocRef: "e"}, {Ref: true, LicRef: "a", DocRef: "D"},
 		{Ref: true, LicRef: "MIT"}, {Ref: true, LicRef: "a", DocRef: "a"},
+		// names that embed the prefixes, names with dots / dashes / digits, long names, case twins
+		{Ref: true, LicRef: "LicenseRef-a"}, {Ref: true, LicRef: "DocumentRef-a"}, {Ref: true, LicRef: "a", DocRef: "DocumentRef-d"},
+		{Ref: true, LicRef: "a", DocRef: "LicenseRef-d"}, {Ref: true, LicRef: "a-LicenseRef-"}, {Ref: true, LicRef: "a.b-c.1"}, {Ref: true, LicRef: "a.b-c.2"},
+		{Ref: true, LicRef: "0"}, {Ref: true, LicRef: "00"}, {Ref: true, LicRef: strings.Repeat("n", 300)}, {Ref: true, LicRef: strings.Repeat("n", 299) + "m"},
+		{Ref: true, LicRef: "Acme-Internal"}, {Ref: true, LicRef: "acme-internal"}, {Ref: true, LicRef: "x", DocRef: "Vendor-SBOM"}, {Ref: true, LicRef: "x", DocRef: "vendor-sbom"},
+		{Ref: true, LicRef: "Apache-2.0"}, {Ref: true, LicRef: "GPL-2.0-or-later"}, {Ref: true, LicRef: "MIT-only"},
 	}
 }
 
